@@ -14,7 +14,7 @@ STATE_POOLS = {
     "int": [0, 1, 2, 3],
     "int5": [0, 1, 2, 3, 4, 5, 6, 7],
     "str": ["a", "b", "a;b", "b;a"],          # look like the library's merged names
-    "mixed": [0, "0", "TRASH", "0;TRASH", 1, "1"],
+    "mixed": [0, "0", "TrashNode", "0;TrashNode", 1, "1"],
     "tuple": [(0, 1), (1, 0), "(0, 1)", ((0, 1), (1, 0))],
 }
 SYMBOL_POOLS = {
